@@ -571,7 +571,10 @@ theorem mapRoots_noNR (umap : TreeMap Int Int) (r : Roots) :
 `_request_reordering` was never called, and the reordering signal is not the error of the call -/
 theorem loadPickle_nq (f : PickleFile) (levels : Bool) (m : Mgr) (hc : m.ctx = false) :
     NQ m (loadPickle f levels m) := by
-  unfold loadPickle
+  rw [loadPickle_eq]
+  split
+  · exact NQ.refl_err hc _ (by simp)
+  unfold loadPickleBody
   split
   · next heq => exact ((loadVars_nq levels _ _ _ m hc).of_eq heq).reErr
   next heq =>
@@ -585,7 +588,11 @@ theorem loadPickle_nq (f : PickleFile) (levels : Bool) (m : Mgr) (hc : m.ctx = f
 /-- `BDD.load` (pickle) never looks at `_last_len` -/
 theorem loadPickle_LL (f : PickleFile) (levels : Bool) (m : Mgr) (l : Option Nat) (hc : m.ctx = false) :
     loadPickle f levels (m.withLL l) = llOut l (loadPickle f levels m) := by
-  unfold loadPickle
+  rw [loadPickle_eq, loadPickle_eq]
+  show (if (levels && !levelsCompatible m.tbl f.vars) = true then _ else _) = _
+  split
+  · rfl
+  unfold loadPickleBody
   rw [loadVars_LL levels _ _ _ m l hc]
   have c1 := loadVars_nq levels f.vars.length f.vars [] m hc
   generalize loadVars levels f.vars.length f.vars [] m = res1 at c1 ⊢
